@@ -897,6 +897,12 @@ uint32_t adfFileRead ( struct AdfFile * const file,
         return 0;
     }
 
+    if ( file->curDataPtr == 0 ) {
+        /* the block buffer is not valid (an earlier seek or read failed): load it again */
+        if ( adfFileSeek ( file, file->pos ) != RC_OK )
+            return 0;
+    }
+
     unsigned blockSize = file->volume->datablockSize;
 /*puts("adfReadFile");*/
     if ( n > file->fileHdr->byteSize - file->pos )   /* (pos + n can wrap) */
@@ -1046,6 +1052,12 @@ uint32_t adfFileWrite ( struct AdfFile * const file,
 
     if (n==0) return (n);
 /*puts("adfWriteFile");*/
+    if ( file->curDataPtr == 0 && file->fileHdr->byteSize > 0 ) {
+        /* the block buffer is not valid (an earlier seek or read failed): load it again */
+        if ( adfFileSeek ( file, file->pos ) != RC_OK )
+            return 0;
+    }
+
     const unsigned blockSize = file->volume->datablockSize;
 
     uint8_t * const dataPtr = ( isOFS ( file->volume->dosType ) ) ?
